@@ -2,7 +2,7 @@
 # run_refactors.sh: the must-PASS corpus -- behaviour-preserving edits of /repo; no check may raise on any of them.
 export GOFLAGS=-mod=mod GOPROXY=off GOSUMDB=off GOTOOLCHAIN=local
 cd /verif
-declare -A REL=( [r01]="C01 C03 C04 C07 C08 C09 C10 C20" [r02]="C01 C05 C08 C09 C20" [r03]="C01 C02 C03 C04 C07 C08 C09 C12 C19 C20" [r05]="C01 C03 C07 C09 C19 C20" [r06]="C01 C03 C04 C05 C06 C07 C08 C09 C12 C19 C20" [r07]="C10 C12 C19" [r08]="C13 C19" [r09]="C01 C03 C05 C12" [r10]="C12 C15 C19" [r11]="C03 C06 C07 C16" [r12]="C01 C03 C07 C09 C10 C13 C16 C19" [r13]="C10 C12 C19" [r14]="C03 C05 C06 C07 C12" [r15]="C10 C12 C19" [r16]="C11 C19" [r17]="C12 C19" [r18]="C02 C12" [r19]="C10 C11 C19" [r20]="C10 C12" [r21]="C02 C12" [r22]="C03 C16" [r23]="C15 C12 C19" [r24]="C16 C19" [r25]="C10 C12 C19" [r26]="C01 C03 C07 C09 C20" [r27]="C16 C10 C12" [r28]="C16 C19" [r29]="C02 C12" [r30]="C15 C12 C19" )
+declare -A REL=( [r31]="C05 C06 C07 C16" [r01]="C01 C03 C04 C07 C08 C09 C10 C20" [r02]="C01 C05 C08 C09 C20" [r03]="C01 C02 C03 C04 C07 C08 C09 C12 C19 C20" [r05]="C01 C03 C07 C09 C19 C20" [r06]="C01 C03 C04 C05 C06 C07 C08 C09 C12 C19 C20" [r07]="C10 C12 C19" [r08]="C13 C19" [r09]="C01 C03 C05 C12" [r10]="C12 C15 C19" [r11]="C03 C06 C07 C16" [r12]="C01 C03 C07 C09 C10 C13 C16 C19" [r13]="C10 C12 C19" [r14]="C03 C05 C06 C07 C12" [r15]="C10 C12 C19" [r16]="C11 C19" [r17]="C12 C19" [r18]="C02 C12" [r19]="C10 C11 C19" [r20]="C10 C12" [r21]="C02 C12" [r22]="C03 C16" [r23]="C15 C12 C19" [r24]="C16 C19" [r25]="C10 C12 C19" [r26]="C01 C03 C07 C09 C20" [r27]="C16 C10 C12" [r28]="C16 C19" [r29]="C02 C12" [r30]="C15 C12 C19" )
 for d in ${@:-selftest/refactors/*.diff}; do
   n=$(basename $d); k=${n:0:3}
   S=$(mktemp -d ${TMPDIR:-/var/tmp}/verif-scratch.XXXXXX)
